@@ -24,8 +24,8 @@
 EXTENDS Lut, TLC
 
 CONSTANTS Block,      \* classes per enumeration block (parallelism only)
-          ClsStride,  \* 1: every class; n: every n-th (only for the coverage run)
-          Stride8,    \* 1: every 8-bit code gets the per-code checks; n: every n-th (only for the coverage run)
+          ClsStride,  \* 1: every class; n: every n-th (development only)
+          Stride8,    \* 1: every 8-bit code gets the per-code checks; n: every n-th (development only)
           Stride16,   \* every Stride16-th 16-bit code gets the per-code checks (1 = all)
           Emit        \* print REPLAY lines
 
@@ -163,7 +163,7 @@ InvCode16 ==
 
 -----------------------------------------------------------------------------
 (* one step per remaining public operation from every 16th code, so that every action of Lut.tla is exercised
-   (vacuity control through -coverage) and the relations are seen to accept the dumped decode tables *)
+   (vacuity control: Taken below) and the relations are seen to accept the dumped decode tables *)
 DecJ == IF enc \in Encs8 THEN C.u8[enc].dec64[c + 1] ELSE D16[enc].dec64[c + 1]
 Dec32 == IF enc \in Encs8 THEN C.u8[enc].dec32[c + 1] ELSE D16[enc].dec32[c + 1]
 InCode == phase \in {"code8", "code16"} /\ c % 16 = 0
@@ -183,7 +183,13 @@ McForm == phase = "walk" /\ c = 5 /\ Form(<<1, 2>>, <<1, 2>>) /\ Goto("done", 0)
 MCNext == Cls8 \/ Code8 \/ Seg16 \/ Code16 \/ McDec \/ McF64 \/ McRun \/ McWalk \/ McForm
 MCSpec == MCInit /\ [][MCNext]_mcvars
 
-Inv == TypeOK /\ InvHdr8 /\ InvCls8 /\ InvCode8 /\ InvHdr16 /\ InvSeg16 /\ InvCode16
+(* Vacuity control.  TLC's -coverage cannot be used on this specification (its cost-model construction inlines the
+   whole operator call tree and runs out of memory before the search starts), so the run prints a witness line at a
+   few states per phase: every action of Lut.tla leaves its own tag in `last`, and the check requires every tag and
+   every phase to appear. *)
+Taken == (c \in {0, 1, 2, 16, 4096}) => PrintT(<<"TAKEN", last, phase>>)
+
+Inv == TypeOK /\ InvHdr8 /\ InvCls8 /\ InvCode8 /\ InvHdr16 /\ InvSeg16 /\ InvCode16 /\ Taken
 
 -----------------------------------------------------------------------------
 (* fixed points of the arithmetic and of the reference curves, evaluated once *)
@@ -226,5 +232,5 @@ ASSUME ~CurveOK("rec_oetf", "f32", DyPow2(-1), <<1, -2, FromNat(47313091)>>)    
 ASSUME Within06("srgb", 255, 188, DyPow2(-1)) /\ Within06("srgb", 255, 187, DyPow2(-1))
 ASSUME ~Within06("srgb", 255, 186, DyPow2(-1)) /\ ~Within06("srgb", 255, 189, DyPow2(-1))
 ASSUME Within05("srgb", 255, 188, DyPow2(-1)) /\ ~Within05("srgb", 255, 187, DyPow2(-1))
-ASSUME KneeStepOK(RatShr(Rat(1, 1), 20)) /\ ~KneeStepOK(Rat(1, 1000000))
+ASSUME KneeStepOK(DyPow2(-20)) /\ ~KneeStepOK(DyPow2(-19))                        \* 9.5e-7 < 1e-6 < 1.9e-6
 =============================================================================
